@@ -1,4 +1,4 @@
-"""C08 -- source-annotated syntax tree (VGC + RCA rules R08.1-R08.10)."""
+"""C08 -- source-annotated syntax tree (VGC + RCA rules R08.1-R08.11)."""
 from __future__ import annotations
 
 import ast
@@ -23,6 +23,7 @@ EXPLANATION = (
     "included) and kw_defaults with kwonlyargs.  R08.8 (=R14.6): the line table that turns the interpreter's line numbers into offsets breaks lines at '\\n' only.  Token search, parenthesis attribution and write-back equality are not decided."
     ' R08.10: every forward search of the token source starts at the cursor self.offset.'
 )
+EXPLANATION += ' R08.11: a `col_offset`/`end_col_offset` of an AST node (UTF-8 bytes) reaches a character offset only through codeanalyze.column_to_offset; it is otherwise only compared, or is the start column of a node tested to be a statement.'
 ASSUMPTIONS = [
     "language inclusion is decided over ASCII plus representatives of the non-ASCII \\w/\\d/\\s classes",
     "zero-width assertions in rope's patterns are erased on the right-hand side (can only enlarge rope's language)",
@@ -70,6 +71,11 @@ def check(ctx, res) -> None:
     line_table_rule(ctx, res, "R08.8")
     _fstring_family_rule(ctx, res)
     _cursor_rule(ctx, res)
+    # R08.11: the walker's offsets are character offsets; a byte column of the AST is converted or only compared
+    from .common import byte_column_rule, column_to_offset_anchor
+
+    column_to_offset_anchor(ctx, res, "R08.11")
+    byte_column_rule(ctx, res, "R08.11", ("rope.refactor.patchedast",), rest=True)
 
 
 def _cursor_rule(ctx, res) -> None:
